@@ -368,6 +368,10 @@ def access_path(e):
             steps.append('0')
             steps.append('as Some')
             e = e[2][0]
+        elif k == 'call' and e[1] in ('std::iter::Iterator::next', 'std::iter::DoubleEndedIterator::next_back') and e[2]:
+            steps.append('as Some')
+            steps.append('[]')
+            e = e[2][0]
         elif k == 'call' and e[1] in ('std::option::Option::take', 'std::mem::take') and e[2]:
             steps.append('!take')
             e = e[2][0]
